@@ -20,6 +20,15 @@ Fixpoint depth (e : node) : nat :=
   | EAnnotation x _ | EInlinedEnum x => S (depth x)
   | PProp _ _ _ _ _ key value init block =>
     S (Nat.max (depth key) (Nat.max (dopt depth value) (Nat.max (dopt depth init) (dlist depth block))))
+  | CClass _ ext props _ => S (Nat.max (dopt depth ext) (dlist depth props))
+  | SClass c | SExportDefaultClass c | SExportDefaultExpr c => S (depth c)
+  | SReturn v => S (dopt depth v)
+  | SExpr x _ => S (depth x)
+  | SLocal _ decls => S (dlist depth decls)
+  | STry b _ f => S (Nat.max (dlist depth b) (dlist depth f))
+  | DDecl b v => S (Nat.max (depth b) (dopt depth v))
+  | BArray items => S (dlist depth items)
+  | BItem b d => S (Nat.max (depth b) (dopt depth d))
   | _ => O
   end.
 
@@ -60,12 +69,14 @@ Section Proofs.
   Variable o_annotated : node -> list value -> outcome.
   Variable rel_prim : binop -> value -> value -> bool.
   Variable loose_prim : value -> value -> bool.
+  Variable o_heritage : value -> outcome.
+  Variable default_runs : node -> nat -> bool.
 
   (* esbuild's documented concessions, as hypotheses *)
   Hypothesis no_tdz : forall r, is_unbound r = false -> env r <> None.
   Hypothesis imports_initialised : forall r, imp r <> None.
 
-  Notation ev := (eval is_unbound env glob imp this_val o_toprim o_iter o_get o_opaque o_annotated rel_prim loose_prim).
+  Notation ev := (eval is_unbound env glob imp this_val o_toprim o_iter o_get o_opaque o_annotated rel_prim loose_prim o_heritage default_runs).
   Notation ev_items := (eval_items_with o_iter ev).
   Notation ev_props := (eval_props_with o_toprim o_opaque ev).
   Notation ev_parts := (eval_parts_with o_toprim ev).
@@ -78,6 +89,9 @@ Section Proofs.
        evaluates silently; no identifier is inside a `with` statement;
      - an annotated call/new/template/expression really is free of side effects;
      - class expressions are outside this theorem (they need statement semantics) *)
+  Definition opt_ok (P : node -> Prop) (o : option node) : Prop :=
+    match o with Some x => P x | None => True end.
+
   Fixpoint flags_ok (e : node) : Prop :=
     match e with
     | EIdent r c kw => kw = false /\ (c = true -> is_unbound r = true -> glob r <> None)
@@ -86,14 +100,25 @@ Section Proofs.
     | EIf c y n => flags_ok c /\ flags_ok y /\ flags_ok n
     | EArray l | EObject l => all_ok flags_ok l
     | ESpread x => flags_ok x
-    | PProp _ _ _ _ _ key value _ _ => flags_ok key /\ match value with Some v => flags_ok v | None => True end
+    | PProp _ _ _ _ _ key value init block =>
+      flags_ok key /\ opt_ok flags_ok value /\ opt_ok flags_ok init /\ all_ok flags_ok block
     | ECall _ args p | ENew _ args p =>
       all_ok flags_ok args /\ (p = true -> forall vs, exists v, o_annotated e vs = ([], Ok v))
     | EUnary _ x _ => flags_ok x
     | EBinary _ l r => flags_ok l /\ flags_ok r
     | ETemplate tag p parts =>
       all_ok flags_ok parts /\ (tag <> None -> p = true -> forall vs, exists v, o_annotated e vs = ([], Ok v))
-    | EClass _ | CClass _ _ _ _ => False
+    | EClass c => flags_ok c
+    | CClass _ ext props _ => opt_ok flags_ok ext /\ all_ok flags_ok props
+    | SClass c | SExportDefaultClass c | SExportDefaultExpr c => flags_ok c
+    | SReturn v => opt_ok flags_ok v
+    (* IsFromClassOrFnThatCanBeRemovedIfUnused: lowering residue the parser vouches for *)
+    | SExpr x from => if from then exists v, ev x = ([], Ok v) else flags_ok x
+    | SLocal _ decls => all_ok flags_ok decls
+    | STry b _ f => all_ok flags_ok b /\ all_ok flags_ok f
+    | DDecl b v => flags_ok b /\ opt_ok flags_ok v
+    | BArray items => all_ok flags_ok items
+    | BItem b d => flags_ok b /\ opt_ok flags_ok d
     | EAnnotation x flag =>
       if flag then exists v, o_annotated e [] = ([], Ok v) /\ type_ok (kpt e) v else flags_ok x
     | EInlinedEnum x => flags_ok x
